@@ -66,6 +66,7 @@ pub fn op_model(case: &J) -> J {
     };
     calls.push((name, k, ctx));
   }
+  let fresh = case.get("fresh").and_then(|v| v.as_bool()).unwrap_or(false);
   let mut rs = vec![];
   for (name, k, ctx) in &calls {
     let before = ctx.to_string();
@@ -79,6 +80,16 @@ pub fn op_model(case: &J) -> J {
         let after = ctx.to_string();
         if after != before {
           rec["input_changed"] = json!([before, after]);
+        }
+        if fresh {
+          // history independence (C13): the same call on an evaluator built for it alone
+          if let Ok(Ok(alone)) = std::panic::catch_unwind(std::panic::AssertUnwindSafe(|| dmntk_model_evaluator::ModelEvaluator::new(&definitions))) {
+            if let Ok(w) = std::panic::catch_unwind(std::panic::AssertUnwindSafe(|| alone.evaluate_invocable(name, ctx))) {
+              if vj::from_value(&w) != rec["v"] {
+                rec["fresh_diff"] = json!({"after_other_calls": rec["v"].clone(), "alone": vj::from_value(&w)});
+              }
+            }
+          }
         }
         rs.push(rec);
       }
